@@ -414,6 +414,10 @@ func (w *depWorld) eval(c *depCase) (accepted bool, violation string, class stri
 	if c.MinDep != 0 {
 		params.MinDepositAmount = c.MinDep
 	}
+	if err := params.Validate(); err != nil {
+		w.lastErr = "setting refused by Params.Validate: " + err.Error()
+		return false, "", ""
+	}
 	must(k.Params.Set(ctx, params))
 	b := w.build(c)
 	for h, hash := range b.voted {
@@ -513,7 +517,9 @@ func c03Cases(thorough bool) []*depCase {
 	poss := []pn{{0, 1}, {0, 4}, {1, 2}, {2, 3}, {4, 5}}
 	values := []int64{10000, 10001, 19999, 20000, 100_000_000, 1 << 62}
 	type pr struct{ rate, cap uint64 }
-	params := []pr{{0, 0}, {1, 0}, {9999, 0}, {9999, 1}, {1, 1 << 40}, {20, 100_000_000}}
+	// parameter settings: everything the chain's own validation admits (settings it refuses are
+	// skipped at evaluation time) - including the largest rates
+	params := []pr{{0, 0}, {1, 0}, {9999, 0}, {9999, 1}, {1, 1 << 40}, {20, 100_000_000}, {10000, 0}, {10000, 100_000_000}, {10001, 0}}
 	// genuine core: full product
 	for _, k := range kinds {
 		for _, h := range heights {
